@@ -170,6 +170,8 @@ class EngineBase:
             return ref(I(self.const_id('builtin:' + v.name)))
         if isinstance(v, PropV):
             return ref(I(self.const_id('property:' + v.getter.qualname)))
+        if type(v).__name__ == 'NamedTupleClsV':
+            return ref(I(self.const_id('namedtuple:' + v.name)))
         if isinstance(v, ModuleV):
             return ref(I(self.const_id('module:' + v.name)))
         if isinstance(v, BoolTermV):
@@ -248,6 +250,12 @@ class EngineBase:
         st.DH = z3.Store(st.DH, r, z3.Store(z3.Select(st.DH, r), k, TRUE))
         st.DV = z3.Store(st.DV, r, z3.Store(z3.Select(st.DV, r), k, v))
         st.keys.append(k)
+        # ghost ownership: a container created in this unit and stored into an owned container becomes owned with it
+        own = st.ghost.get('OWN')
+        pre = getattr(self, 'unit_pre', None)
+        if own is not None and pre is not None and not z3.is_false(smt.simp(is_ref(v))):
+            rv = r_of(v)
+            st.ghost['OWN'] = z3.Store(own, rv, OR(z3.Select(own, rv), AND(is_ref(v), z3.Select(own, r), rv >= pre.A)))
 
     def dict_del(self, st: St, r, k):
         had = self.dict_has(st, r, k)
